@@ -20,7 +20,7 @@ RULE = ("(encoder level, exhaustive) for eco-mode v1 and v2 groups x every prior
 ASSUMPTIONS = ["v1 groups carry no SoC and encode_discharge takes none: SoC is asserted for v2 ECO_CHARGE only",
                "a limit whose encoding is the all-ones 'no value' sentinel (65535) is outside the readable domain",
                "a setter that raises (e.g. ES with undecodable prior eco registers) has not 'succeeded': nothing is asserted then"]
-MUST = ["group_inspected_after_other_getters", "mode_setter_repeated_after_failed_attempt", "limits_kept_across_mode_change", "eco_group_type_checked", "prior_group_fulltime_but_off", "prior_group_typed_with_undecodable_tail", "single_sensor_reads_before_setters", "roundtrips_in_each_mode", "background_poller_during_setters", "same_mode_repeated", "setter_with_refused_write", "polls_between_setters", "encoder_roundtrips", "mode_roundtrips", "eco_charge_checked", "eco_discharge_checked", "groups_off_checked",
+MUST = ["same_value_set_again_after_foreign_change", "group_inspected_after_other_getters", "mode_setter_repeated_after_failed_attempt", "limits_kept_across_mode_change", "eco_group_type_checked", "prior_group_fulltime_but_off", "prior_group_typed_with_undecodable_tail", "single_sensor_reads_before_setters", "roundtrips_in_each_mode", "background_poller_during_setters", "same_mode_repeated", "setter_with_refused_write", "polls_between_setters", "encoder_roundtrips", "mode_roundtrips", "eco_charge_checked", "eco_discharge_checked", "groups_off_checked",
         "export_limit_roundtrips", "dod_roundtrips", "prior_nonempty_types", "es_modes", "et_745", "et_v1"]
 EXHAUSTIVE = {"quick": False, "thorough": False}
 
@@ -442,6 +442,25 @@ def e2e_part(spec, part):
                 part.count("dod_roundtrips")
                 if got != d:
                     part.violate(f"C19/{fam}/dod-roundtrip", f"{tagtxt}: set_ongrid_battery_dod({d}) then get = {got}", case)
+            # the same value set again after ANOTHER client (the vendor app, a second integration) changed it in between: the setter has succeeded
+            # only if the inverter holds the value afterwards - whatever this object remembers having written before
+            if it % 3 == 0:
+                inv2 = models.family_cls(g, fam)("inv0", port, 0, 1, 0)
+                await inv2.read_device_info()
+                for setter, getter, other_setter, v, other in (
+                        (inv.set_ongrid_battery_dod, inv.get_ongrid_battery_dod, inv2.set_ongrid_battery_dod, rnd.randrange(0, 90), rnd.randrange(0, 90)),
+                        (inv.set_grid_export_limit, inv.get_grid_export_limit, inv2.set_grid_export_limit, rnd.randrange(0, 9000), rnd.randrange(0, 9000))):
+                    if other == v:
+                        other += 1
+                    await setter(v)
+                    await other_setter(other)
+                    await setter(v)
+                    got = await getter()
+                    part.count("same_value_set_again_after_foreign_change")
+                    if got != v:
+                        part.violate(f"C19/{fam}/{'dod' if 'dod' in setter.__name__ else 'export-limit'}-roundtrip/after-foreign-change",
+                                     f"{tagtxt}: {setter.__name__}({v}); another client sets {other}; {setter.__name__}({v}) again returned normally, "
+                                     f"{getter.__name__}() = {got}", case)
             bg["stop"] = True
             if bg["task"] is not None:
                 await bg["task"]
